@@ -230,6 +230,9 @@ class InventoryFileReader:
                 yield buf[:pos].decode()
                 buf = buf[pos + 1 :]
                 pos = buf.find(b"\n")
+        if buf:
+            # a final line without a trailing newline
+            yield buf.decode()
 
 
 @functools.lru_cache(maxsize=256)
